@@ -181,7 +181,9 @@ func c20Render(tok string, e *c20Event, ev *logger.Event) []string {
 	case "$request_args":
 		return []string{ev.RequestURL.RawQuery}
 	case "$request_host":
-		return []string{e.Host}
+		// the host the client asked for travels in the request URL (the request's own Host field is rewritten on
+		// routes with a host option before the line is written)
+		return []string{ev.RequestURL.Host}
 	case "$request_method":
 		return []string{e.Method}
 	case "$request_scheme":
